@@ -17,10 +17,12 @@ ASSUMPTIONS = ["weighted mean computed with math.fsum over the same getters of t
 REQUIRED = {
     "quick": {"index_values_checked": 20000, "fundamental_index_checked": 2000, "class/unequal_shares_run": 40,
               "class/component_shock_run": 10, "class/component_prices_moved_run": 30,
-              "class/duplicate_component_refused": 4, "class/component_without_shares_refused": 4},
+              "class/duplicate_component_refused": 4, "class/component_without_shares_refused": 4,
+              "class/arbitrageur_full_access_run": 4, "class/arbitrageur_partial_access_run": 4},
     "thorough": {"index_values_checked": 600000, "fundamental_index_checked": 60000, "class/unequal_shares_run": 1200,
                  "class/component_shock_run": 300, "class/component_prices_moved_run": 900,
-                 "class/duplicate_component_refused": 150, "class/component_without_shares_refused": 150},
+                 "class/duplicate_component_refused": 150, "class/component_without_shares_refused": 150,
+                 "class/arbitrageur_full_access_run": 120, "class/arbitrageur_partial_access_run": 120},
 }
 
 
@@ -62,6 +64,20 @@ def gen_case(rng, tier, idx):
     cfg["A"] = {"class": "ScriptAgent", "numAgents": rng.randint(3, 6), "markets": mk, "cashAmount": 100000,
                 "assetVolume": 50, "program": prog}
     cfg["simulation"]["agents"].append("A")
+    arb = rng.random() < 0.25
+    if arb:
+        # the built-in index arbitrageur watches the index (it needs equal shares); with full access it trades, with
+        # access to only some of the components its threshold is out of reach so that it only watches
+        eq = rng.choice([1000, 25000, 7777])
+        for c in spots:
+            cfg[c]["outstandingShares"] = eq
+        full = rng.random() < 0.5
+        acc = list(comps) if full else rng.sample(comps, rng.randint(0, len(comps) - 1))
+        cfg["ARB"] = {"class": "ArbitrageAgent", "numAgents": rng.randint(1, 3), "markets": ["IDX"] + acc,
+                      "cashAmount": 100000, "assetVolume": 50, "orderVolume": 1,
+                      "orderThresholdPrice": rng.choice([0.5, 5.0]) if full else 1e12,
+                      "orderTimeLength": rng.choice([1, 3])}
+        cfg["simulation"]["agents"].append("ARB")
     ns = rng.choice([1, 2])
     total = 0
     for i in range(ns):
@@ -70,7 +86,7 @@ def gen_case(rng, tier, idx):
         cfg["simulation"]["sessions"].append({"sessionName": i, "iterationSteps": st, "withOrderPlacement": True,
                                               "withOrderExecution": rng.random() < 0.85, "withPrint": False,
                                               "maxNormalOrders": rng.choice([2, 5]), "maxHighFrequencyOrders": 1})
-    if rng.random() < 0.2:
+    if rng.random() < 0.2 and not arb:
         # the public outstanding_shares attribute of a component is changed during the run (e.g. a share issue)
         t_ch = rng.randrange(1, max(2, total))
         cfg["ISSUE"] = {"class": "ProbeEvent", "hooks": [{"type": "market", "before": True, "time": None}],
@@ -237,4 +253,10 @@ def run_case(case, res):
         res.count("class/component_prices_moved_run")
     if "ISSUE" in cfg:
         res.count("class/shares_changed_during_run")
+    if "ARB" in cfg and any(s_.get("maxHighFrequencyOrders", 1) > 0 for s_ in cfg["simulation"]["sessions"]):
+        res.count("class/arbitrageur_%s_access_run" % ("full" if len(cfg["ARB"]["markets"]) == len(sh) + 1 else "partial"))
+    for im in mon.idx:
+        if [m.name for m in im.get_components()] != list(cfg[im.name]["markets"]):
+            res.violation("components", "index-components-differ-from-configuration",
+                          {"index": im.name, "got": [m.name for m in im.get_components()], "when": "end of run"})
     res.seen(canon_hash([case["seed"], sh]), len(set(sh)) > 1 and mon.moved)
